@@ -161,6 +161,12 @@ def _vals(rng, dtype, n, vclass):
         return [rng.choice([top, top / 2, top / 4, 1.0]) for _ in range(n)]
     if vclass == "nonfinite" and dt.kind == "f":
         return gen.values(rng, dtype, n, "nonfinite").tolist()
+    if vclass == "mostlyzero":
+        # fewer than one cell in sixteen is non-zero (sparse shortcuts), zeros at the ends of the long rows
+        out = [0] * n
+        for _ in range(max(1, n // 40)):
+            out[rng.randrange(max(1, n // 2))] = rng.choice([1, 2, 5])
+        return np.array(out).astype(dt).tolist()
     if vclass == "huge":
         if dt.kind in "iu" and dt.itemsize == 8:
             ii = np.iinfo(dt)
@@ -199,6 +205,10 @@ def directed():
     rng = random.Random(909)
     for c in big_cases():
         yield c
+    for lens_ in ([12, 3, 0, 9, 5], [1, 30], [6, 6, 6, 6], [20, 0, 0, 1]):
+        for dtype_ in ("int64", "float64", "uint8", "bool"):
+            for op_ in ("sum0", "np.sum0", "mean0", "np.mean0"):
+                yield gen_case(rng, lens_, dtype_, op_, vclass="mostlyzero")
     # the column number is exactly the largest value of its (narrow) integer type, in arrays with longer and shorter rows
     for jt_, jmax in (("int8", 127), ("uint8", 255), ("int8", 126), ("uint8", 254)):
         lens_ = [jmax + 3, 2, jmax + 1, 0, jmax]
@@ -245,7 +255,7 @@ def random_case(rng, tier):
         lens = [1, 0, 2]
     dtype = rng.choice(gen.DT_ALL)
     recv = rng.choice(c02.RECVS) if rng.random() < 0.4 else "fresh"
-    return gen_case(rng, lens, dtype, None, recv, rng.choice(["small", "medium", "huge", "bigfloat", "nonfinite"]))
+    return gen_case(rng, lens, dtype, None, recv, rng.choice(["small", "medium", "huge", "bigfloat", "nonfinite", "mostlyzero"]))
 
 
 def classify(case, res):
